@@ -62,12 +62,12 @@ Proof.
   intros n f H. apply mfield_of_name_inv in H. destruct H as [[-> _]|[[-> _]|[-> _]]]; reflexivity.
 Qed.
 
-Lemma set_single_sens : forall o n v e, q_modifiable n = Some true -> set_single o n v = Ok e ->
+Lemma set_single_sens : forall o n v e, negb (q_modifiable n) = false -> set_single o n v = Ok e ->
   n = "Sensitive" /\ exists b, v = VBool b /\
     (e = ESet SSens (VBool b) \/ (e = ENoChange /\ o_sensitive o = b)).
 Proof.
-  intros o n v e M H. unfold set_single in H.
-  destruct (q_multivalued n) as [[|]|]; try discriminate.
+  intros o n v e M H. apply negb_false_iff in M. unfold set_single in H.
+  destruct (q_multivalued n); try discriminate.
   destruct (sfield_of_name n) eqn:S.
   - apply sfield_of_name_inv in S. destruct S as [[-> ->]|[NS P]].
     + split; [reflexivity|]. destruct v; try discriminate. exists b. split; [reflexivity|].
@@ -76,7 +76,7 @@ Proof.
   - destruct v; discriminate.
 Qed.
 
-Lemma set_single_eff : forall o n v e, q_modifiable n = Some true -> set_single o n v = Ok e ->
+Lemma set_single_eff : forall o n v e, negb (q_modifiable n) = false -> set_single o n v = Ok e ->
   exists ta, sens_target n v = Some ta /\ eff_for o e ta.
 Proof.
   intros o n v e M H. destruct (set_single_sens _ _ _ _ M H) as [-> [b [-> [->|[-> OS]]]]]; eexists; split;
@@ -100,7 +100,7 @@ Lemma opt_eq_int_some : forall x c i, opt_eq_int x c = Ok (Some i) -> True.
 Proof. trivial. Qed.
 
 (* a current value is only ever searched in one of the three stored collections when the name is multi-valued *)
-Lemma index_of_multi : forall o n c i, q_multivalued n = Some true -> index_of o n c = Ok (Some i) ->
+Lemma index_of_multi : forall o n c i, q_multivalued n = true -> index_of o n c = Ok (Some i) ->
   exists f, mfield_of_name n = Some f /\ first_index c (mget f o) = Some i.
 Proof.
   intros o n c i M. unfold index_of.
@@ -123,34 +123,46 @@ Qed.
 Lemma delete_from_idx : forall o n i e, delete_from o n (Some i) None = Ok e ->
   exists f, mfield_of_name n = Some f /\ 0 <= i /\ e = ERemove f (Z.to_nat i) /\ (Z.to_nat i < List.length (mget f o))%nat.
 Proof.
-  intros o n i e H. unfold delete_from in H.
+  intros o n i e H. unfold delete_from in H. cbv zeta in H.
   repeat (bm; try discriminate). inv H. eexists. split; [reflexivity|].
   match goal with Hc : (_ && _) = true |- _ => apply andb_true_iff in Hc; destruct Hc as [A B] end.
   apply Z.leb_le in A. apply Z.ltb_lt in B.
   repeat split; auto. lia.
 Qed.
 
+(* deletion by current value: the first equal instance - except for the empty name text, which deletes every name *)
 Lemma delete_from_val : forall o n c e, delete_from o n None (Some c) = Ok e ->
-  exists f i, mfield_of_name n = Some f /\ first_index c (mget f o) = Some i /\ e = ERemove f i.
+  (n = "Name" /\ c = VText "" /\ e = EClear FNames) \/
+  (exists f i, mfield_of_name n = Some f /\ first_index c (mget f o) = Some i /\ e = ERemove f i).
 Proof.
-  intros o n c e H. unfold delete_from in H.
-  repeat (bm; try discriminate); inv H; eexists; eexists; repeat split; eauto.
+  intros o n c e H. unfold delete_from in H. cbv zeta in H.
+  destruct (negb (q_applicable n (o_type o))); [discriminate|].
+  destruct (negb (q_deletable n)); [discriminate|].
+  destruct (q_multivalued n); [|discriminate].
+  destruct (mfield_of_name n) as [f|] eqn:F; [|discriminate].
+  destruct f; destruct c; try discriminate.
+  - destruct (String.eqb_spec s ""); [subst s|].
+    + inv H. left. apply mfield_of_name_inv in F. destruct F as [[-> _]|[[_ X]|[_ X]]]; try discriminate. auto.
+    + right. destruct (first_index (VText s) (mget FNames o)) eqn:I; [|discriminate]. inv H. eauto.
+  - right. destruct (first_index (VText s) (mget FGroups o)) eqn:I; [|discriminate]. inv H. eauto.
+  - right. destruct (first_index (VAsi ns d) (mget FAsi o)) eqn:I; [|discriminate]. inv H. eauto.
 Qed.
 
 Lemma delete_from_all : forall o n e, delete_from o n None None = Ok e ->
   exists f, mfield_of_name n = Some f /\ e = EClear f.
 Proof.
-  intros o n e H. unfold delete_from in H.
+  intros o n e H. unfold delete_from in H. cbv zeta in H.
   repeat (bm; try discriminate); inv H; eexists; split; eauto.
 Qed.
 
-Lemma decide_delete_addr : forall v o p e, decide_delete v o p = Ok e ->
+Lemma decide_delete_addr : forall v o p e, deletes_empty_name v (RDelete p) = false -> decide_delete v o p = Ok e ->
   exists ta, addressed v o (RDelete p) = Some ta /\ eff_for o e ta.
 Proof.
-  intros v o p e H. unfold decide_delete in H. cbv zeta in H. simpl. destruct (is_v2 v).
+  intros v o p e NE H. unfold decide_delete in H. cbv zeta in H. simpl. simpl in NE. destruct (is_v2 v).
   - destruct (d_current p) as [[[n|] c]|].
-    + apply delete_from_val in H. destruct H as [f [i [F [I ->]]]]. rewrite F, I. simpl.
-      eexists; split; [reflexivity|]. constructor. eapply first_index_lt; eauto.
+    + apply delete_from_val in H. destruct H as [[-> [-> _]]|[f [i [F [I ->]]]]].
+      * simpl in NE. discriminate.
+      * rewrite F, I. simpl. eexists; split; [reflexivity|]. constructor. eapply first_index_lt; eauto.
     + discriminate.
     + destruct (d_ref p) as [n|]; [|discriminate].
       apply delete_from_all in H. destruct H as [f [F ->]]. rewrite F. simpl. eexists; split; [reflexivity|]. constructor.
@@ -168,8 +180,8 @@ Lemma decide_modify_addr : forall v o p e, decide_modify v o p = Ok e ->
 Proof.
   intros v o p e H. unfold decide_modify in H. cbv zeta in H. simpl. destruct (is_v2 v).
   - destruct (m_new p) as [[[n|] nv]|]; try discriminate.
-    destruct (q_modifiable n) as [[|]|] eqn:M; try discriminate.
-    destruct (q_multivalued n) as [[|]|] eqn:MV; try discriminate.
+    destruct (negb (q_modifiable n)) eqn:M; try discriminate.
+    destruct (q_multivalued n) eqn:MV.
     + destruct (m_current p) as [c|]; [|discriminate].
       destruct (index_of o n c) as [[i|]|] eqn:IO; try discriminate.
       destruct (index_of_multi _ _ _ _ MV IO) as [f [F I]]. rewrite F, I. simpl.
@@ -181,13 +193,12 @@ Proof.
       destruct (set_single_sens _ _ _ _ M S) as [-> _]. rewrite sens_not_multi_field.
       eapply set_single_eff; eauto.
   - destruct (m_attr p) as [[[n idx] nv]|]; [|discriminate].
-    destruct (q_modifiable n) as [[|]|] eqn:M; try discriminate.
-    destruct (q_multivalued n) as [[|]|] eqn:MV; try discriminate.
-    + match type of H with (if ?c then _ else _) = _ => destruct c eqn:NEG; [discriminate|] end.
-      destruct (get_value o n) as [|k|] eqn:G; try discriminate.
+    destruct (negb (q_modifiable n)) eqn:M; try discriminate.
+    destruct (q_multivalued n) eqn:MV.
+    + destruct (get_value o n) as [|k|] eqn:G; try discriminate.
       destruct (get_value_list _ _ _ G) as [f [F ->]]. rewrite F.
-      match type of H with (if ?c then _ else _) = _ => destruct c eqn:LT; [|discriminate] end.
-      apply Z.ltb_ge in NEG. apply Z.ltb_lt in LT.
+      match type of H with (if ?c then _ else _) = _ => destruct c eqn:RG; [|discriminate] end.
+      apply andb_true_iff in RG. destruct RG as [NEG LT]. apply Z.leb_le in NEG. apply Z.ltb_lt in LT.
       assert (IN : idx_nat idx = Some (Z.to_nat match idx with Some i => i | None => 0 end)).
       { unfold idx_nat. destruct idx as [i|]; [|reflexivity]. destruct (i <? 0) eqn:N; [apply Z.ltb_lt in N; lia|reflexivity]. }
       rewrite IN. simpl. eexists; split; [reflexivity|]. eapply set_by_index_eff; eauto. lia.
@@ -202,16 +213,16 @@ Lemma decide_set_addr : forall v o p e, decide_set v o p = Ok e ->
 Proof.
   intros v o p e H. unfold decide_set in H. simpl.
   destruct p as [[[n|] nv]|]; try discriminate.
-  destruct (q_multivalued n) as [[|]|]; try discriminate.
-  destruct (q_modifiable n) as [[|]|] eqn:M; try discriminate.
-  destruct (q_applicable n (o_type o)) as [[|]|]; try discriminate.
+  destruct (q_multivalued n); try discriminate.
+  destruct (negb (q_modifiable n)) eqn:M; try discriminate.
+  destruct (negb (q_applicable n (o_type o))); try discriminate.
   eapply set_single_eff; eauto.
 Qed.
 
-Lemma decide_addr : forall v o r e, decide v o r = Ok e ->
+Lemma decide_addr : forall v o r e, deletes_empty_name v r = false -> decide v o r = Ok e ->
   exists ta, addressed v o r = Some ta /\ meets ta o (apply_effect e o).
 Proof.
-  intros v o r e H.
+  intros v o r e NE H.
   assert (X : exists ta, addressed v o r = Some ta /\ eff_for o e ta).
   { destruct r; simpl in H; eauto using decide_delete_addr, decide_modify_addr, decide_set_addr. }
   destruct X as [ta [A E]]. exists ta. split; [assumption|]. now apply eff_for_meets.
@@ -232,14 +243,41 @@ Proof.
       * apply (G j y); [lia|assumption].
 Qed.
 
-Theorem step_success_exact : forall v user s uid r,
+Theorem step_success_exact_partial : forall v user s uid r,
+  deletes_empty_name v r = false ->
   snd (step v user s uid r) = Success ->
   exists u o o' ta,
     uid = Some u /\ find_obj u s = Some o /\ allowed user o = true /\
     addressed v o r = Some ta /\ meets ta o o' /\
     only_object_changed u o o' s (fst (step v user s uid r)).
 Proof.
-  intros v user s uid r H. destruct (step_success_inv _ _ _ _ _ H) as [u [o [e [U [F [A [D S]]]]]]].
-  destruct (decide_addr _ _ _ _ D) as [ta [AD M]].
+  intros v user s uid r NE H. destruct (step_success_inv _ _ _ _ _ H) as [u [o [e [U [F [A [D S]]]]]]].
+  destruct (decide_addr _ _ _ _ NE D) as [ta [AD M]].
   exists u, o, (apply_effect e o), ta. rewrite S. repeat split; auto. now apply replace_obj_only.
+Qed.
+
+(* ------------------------------------------------------------------ the full statement fails on the repaired tree *)
+Definition success_exact_statement : Prop := forall v user s uid r,
+  snd (step v user s uid r) = Success ->
+  exists u o o' ta,
+    uid = Some u /\ find_obj u s = Some o /\ allowed user o = true /\
+    addressed v o r = Some ta /\ meets ta o o' /\
+    only_object_changed u o o' s (fst (step v user s uid r)).
+
+Definition wit_key : obj :=
+  mkObj 1 2 (Some 1) "alice" "default" (Some 12) (Some 3) (Some 128) 1600000000 None
+        [VText "a"; VText "b"] [VText "g0"] [] false.
+Definition wit_req : areq := RDelete (mkDel None None (Some (Some "Name", VText "")) None).
+
+(* DeleteAttribute (2.0) by the current value Name "" - which the object does not have - succeeds and removes both names *)
+Lemma empty_name_delete_witness :
+  step (2, 0) "alice" [wit_key] (Some 1) wit_req = ([mset FNames [] wit_key], Success) /\
+  addressed (2, 0) wit_key wit_req = None.
+Proof. split; vm_compute; reflexivity. Qed.
+
+Theorem step_success_exact_refuted : ~ success_exact_statement.
+Proof.
+  intro H. specialize (H (2, 0) "alice" [wit_key] (Some 1) wit_req).
+  destruct H as [u [o [o' [ta [U [F [_ [A _]]]]]]]]; [vm_compute; reflexivity|].
+  inv U. vm_compute in F. inv F. vm_compute in A. discriminate.
 Qed.
